@@ -12,6 +12,7 @@ import SA.Proofs.DnsOpen
 import SA.Proofs.DnsStray
 import SA.Proofs.DnsBatch
 import SA.Gen.C13Locks
+import SA.Gen.PkgVars
 
 namespace SA.Props.C13
 open SA.Go SA.Go.Res SA.DnsServer
@@ -597,3 +598,15 @@ end SA.Props.C13
 #print axioms SA.Props.C13.C13_expiry_loops_safe
 #print axioms SA.Props.C13.C13_unrelated_expiry_harmless
 #print axioms SA.Props.C13.C13_witness_old_expiry
+
+namespace SA.PkgState
+/-- **no_hidden_process_state**: the models of this property are functions of their arguments and of the objects they are
+    handed; the packages they model keep no package-level variables besides these (regenerated inventory: error
+    sentinels, tables, compiled patterns, the two session time-outs).  A new package-level variable — a counter, a cache, a
+    scratch buffer, a shared map, a registry — would make later calls depend on earlier ones, or concurrent calls on each
+    other, outside anything a per-call comparison of model and code can see. -/
+theorem C13_no_hidden_process_state :
+    Gen.pkgVarNames_dns = ["ConnectionTimeout", "ErrConnectionFailed", "ErrHandshakeNotCompleted", "OldConnectionTimeout"] := by decide
+end SA.PkgState
+
+#print axioms SA.PkgState.C13_no_hidden_process_state
